@@ -31,3 +31,35 @@ pub proof fn lemma_hdr(p: u8, s: u8, n: u8)
     assert((0b0110_0000u8 | (p << 4) | (n & 0xF)) == (6 + p) * 16 + n % 16) by(bit_vector) requires p <= 1;
     assert((0b1110_0000u8 | (p << 4) | (n & 0xF)) == (14 + p) * 16 + n % 16) by(bit_vector) requires p <= 1;
 }
+
+/// what the accessors report, as functions of the value (the postconditions of Address::kind / payment_cred / network_id)
+pub open spec fn kind_spec(a: Address) -> AddressKind {
+    match a.0 { AddrType::Base(_) => AddressKind::Base, AddrType::Ptr(_) => AddressKind::Pointer, AddrType::Enterprise(_) => AddressKind::Enterprise,
+                AddrType::Reward(_) => AddressKind::Reward, AddrType::Byron(_) => AddressKind::Byron, AddrType::Malformed(_) => AddressKind::Malformed }
+}
+pub open spec fn shelley_net(a: Address) -> int {
+    match a.0 { AddrType::Base(b) => b.network as int, AddrType::Ptr(p) => p.network as int, AddrType::Enterprise(e) => e.network as int,
+                AddrType::Reward(r) => r.network as int, _ => 0 }
+}
+pub open spec fn shelley_pay(a: Address) -> Credential
+    recommends a.0 is Base || a.0 is Ptr || a.0 is Enterprise || a.0 is Reward
+{
+    match a.0 { AddrType::Base(b) => b.payment, AddrType::Ptr(p) => p.payment, AddrType::Enterprise(e) => e.payment, AddrType::Reward(r) => r.payment,
+                _ => arbitrary() }
+}
+/// CIP-19 reading of a header byte: the address kind from the type nibble
+pub open spec fn kind_of_header(h: int) -> AddressKind {
+    let t = h / 16;
+    if t <= 3 { AddressKind::Base } else if t <= 5 { AddressKind::Pointer } else if t <= 7 { AddressKind::Enterprise } else { AddressKind::Reward }
+}
+/// C11, classification: the header byte that `to_bytes` writes (header_of) reads back, by the CIP-19 table, as exactly the kind, the network id and the
+/// payment-credential kind that the accessors report - for every Shelley address whose network id is one a constructor can store (0..=15)
+pub proof fn lemma_header_classifies(a: Address)
+    requires a.0 is Base || a.0 is Ptr || a.0 is Enterprise || a.0 is Reward, shelley_net(a) <= 15
+    ensures 0 <= header_of(a) <= 255,
+            header_of(a) % 16 == shelley_net(a),
+            kind_of_header(header_of(a)) == kind_spec(a),
+            (header_of(a) / 16) % 2 == k(shelley_pay(a)),
+            a.0 is Base ==> (header_of(a) / 32) % 2 == k(a.0->Base_0.stake),
+{
+}
